@@ -476,7 +476,7 @@ func init() {
 				}
 			}})
 		}
-		us = append(us, coldUnit("uePolicyContainer.IDGenerator", "count-alloc"))
+		us = append(us, coldUnits(tier, "uePolicyContainer.IDGenerator", "count-alloc")...)
 		return us
 	}
 	core.Register(p)
